@@ -155,6 +155,21 @@ CLAIMS["C40"] = ("other", "lock-region, publish-ordering, reader-bound, provenan
                  "while the lock is held). Linearizability over interleavings is not decided.", "Trusts clang's AST and the C++ memory "
                  "model.", "DESIGN.md 4/C40")
 
+CLAIMS["C30"] = ("other", "event-order rules on the flattened stepping pipelines, all-paths shape rule of each check's bad branch, exhaustive "
+                 "finite evaluation of mju_isBad over IEEE order types",
+                 "Decides: mj_checkPos/mj_checkVel precede the first stage and mj_checkAcc sits between the acceleration stage and the "
+                 "integrator in mj_step and mj_step1;mj_step2 for every integrator; each check scans its whole (awake) vector and on the "
+                 "bad branch warns with the matching warning, resets exactly under !mjDISABLED(mjDSBL_AUTORESET), re-counts after the "
+                 "reset and returns; mju_isBad is bad exactly for NaN and |x| > mjMAXVAL; mj_warning increments its counter on all paths. "
+                 "'Every state component finite after every step' is value-level and not decided.", "Trusts clang's AST.",
+                 "DESIGN.md 4/C30")
+CLAIMS["C34"] = ("other", "table agreement: name-lookup reader vs X-macro extents vs numObjects vs nnames_map vs the compiler's writer "
+                 "(C++ AST of mjCModel::CopyNames / namelist)",
+                 "Decides for every model and object type: the count, the map-address decrement and the extent of the name-address array "
+                 "agree per type; the reader's fall-through order equals the writer's layout order with the same scaling constant; both hash "
+                 "with the same function and modulus and probe compatibly (-1 sentinel); lookups index only inside their tables. Probe "
+                 "termination for adversarial tables is not decided.", "Trusts clang's AST/preprocessor.", "DESIGN.md 4/C34")
+
 NOT_APPLICABLE = {
     "C06": "numerical identities of M, LTDL and RNE over real-valued runtime data; no clause is visible in code shape",
     "C07": "'J equals the derivative of position' and proper-rotation claims are numerical; joint-type exhaustiveness is decided under C05",
